@@ -290,7 +290,7 @@ struct SetResult {
     failure: Option<String>,
 }
 
-fn run_set(set: &ProgSet) -> SetResult {
+fn run_set(set: &ProgSet, budget_s: f64) -> SetResult {
     EXECS.store(0, Ordering::Relaxed);
     OUTCOMES.lock().unwrap().clear();
     *SIGS.lock().unwrap() = Some(HashSet::new());
@@ -298,6 +298,9 @@ fn run_set(set: &ProgSet) -> SetResult {
     b.preemption_bound = set.bound;
     b.max_branches = 100_000;
     b.log = false;
+    // one exploding set must not eat the whole budget: loom stops quietly at this limit and the
+    // set is then reported as truncated (the run is not called exhaustive)
+    b.max_duration = Some(std::time::Duration::from_secs_f64(budget_s.max(5.0)));
     let set2 = std::sync::Arc::new(set.clone());
     let res = std::panic::catch_unwind(std::panic::AssertUnwindSafe(|| {
         b.check(move || {
@@ -421,7 +424,13 @@ fn main() {
             break;
         }
         println!("BEGIN {} {}", idx, set.text());
-        let r = run_set(set);
+        let t_set = Instant::now();
+        let budget = (wall - t0.elapsed().as_secs_f64()).max(5.0);
+        let r = run_set(set, budget);
+        if t_set.elapsed().as_secs_f64() >= budget {
+            capped = true;
+            println!("TRUNCATED {} {}", idx, set.text());
+        }
         if let Some(f) = r.failure {
             let mut o = J::obj();
             o.set("set_index", J::i(idx));
